@@ -245,11 +245,15 @@ class BufferCursor(Cursor):
         return self.buffer.split_block_lines(text)[0].rstrip()
 
     def lineat(self, pos: int | None = None) -> int:
+        if not self.buffer.linecache:
+            return 0  # the empty text
         if pos is None:
             pos = self.pos
         return self.buffer.linecache[pos].lineno
 
     def poscol(self, pos: int | None = None) -> int:
+        if not self.buffer.linecache:
+            return 0  # the empty text
         if pos is None:
             pos = self.pos
         start = self.buffer.linecache[pos].startpos
@@ -500,6 +504,8 @@ class Buffer(Text):
         return self.linecache[pos].lineno
 
     def poscol(self, pos: int | None = None) -> int:
+        if not self.linecache:
+            return 0  # the empty text
         if pos is None:
             pos = self.pos
         start = self.linecache[pos].startpos
